@@ -440,6 +440,14 @@ func (vx *Vaxis) ClipboardPush(b string)
   modifies nothing
 
 -- Every sequence the parser can deliver (C02's csiDispatch postcondition): inner parameter lists are non-empty.
+-- the two atomic flag helpers (sync/atomic is outside the module: ASSUMED to load and store the addressed word)
+func atomicStore(addr *int32, val bool)
+  modifies *addr
+  ensures *addr == (val ? 1 : 0)
+func atomicLoad(val *int32) bool
+  modifies nothing
+  ensures result == (*val == 1)
+
 -- events handed to the application (and to start-up, which turns capability events into capability flags) are a ghost
 -- log; the channel they travel through is not modelled
 func (vx *Vaxis) PostEventBlocking(ev Event)
@@ -453,6 +461,8 @@ pred RPMMode(seq ansi.Sequence) int = unbox(seq, "ansi.CSI").Parameters[0][0]
 pred RPMStatus(seq ansi.Sequence) int = unbox(seq, "ansi.CSI").Parameters[1][0]
 func (vx *Vaxis) handleSequence(seq ansi.Sequence)
   requires wf: typeis(seq, "ansi.CSI") ==> CSIWF(unbox(seq, "ansi.CSI"))
+  -- a cursor-position reply (CSI ... R while a query is outstanding) ends the query: the next CSI R is a key again
+  ensures C03_cpr: (typeis(seq, "ansi.CSI") && unbox(seq, "ansi.CSI").Final == 82 && old(vx.reqCursorPos) == 1) ==> vx.reqCursorPos == 0
   ensures C07_rpm_no: (IsRPM(seq) && RPMStatus(seq) != 1 && RPMStatus(seq) != 2) ==> loglen("posted") == old(loglen("posted"))
   ensures C07_rpm_2027: (IsRPM(seq) && RPMMode(seq) == 2027 && (RPMStatus(seq) == 1 || RPMStatus(seq) == 2)) ==>
         (loglen("posted") == old(loglen("posted")) + 1 && typeis(logat("posted", old(loglen("posted"))), "vaxis.unicodeCoreCap"))
@@ -941,6 +951,14 @@ pred Nulled(vx *Vaxis, row int, col int, n int) = forall k in 1..n: col + k < vx
 
 -- the terminal's cursor is on a cell (CUP counts from 1)
 pred At(row int, col int) = trow() == row + 1 && tcol() == col + 1
+
+-- Render, bookkeeping only (its pieces -- render and Flush -- have their own contracts; their composition is argued in
+-- DESIGN R7): the first Render after a size change reallocates both screens and orders a full repaint for the next
+-- frame; an ordinary Render ends with the cursor bookkeeping brought up to date and the repaint order withdrawn
+func (vx *Vaxis) Render()
+  tokens
+  exit 2 assert C01_resized: vx.refresh
+  exit 3 assert C01_book: vx.cursorLast == vx.cursorNext && !vx.refresh
 
 -- render: whenever a cell's text is written, the pen the terminal holds is the cell's style as the advertised
 -- capabilities can show it; the hyperlink is closed when the frame ends
